@@ -216,7 +216,13 @@ pub fn run(s: &Scn, ctx: &mut RunCtx) -> RunOutput {
                             let running: Vec<_> = comp.iter().filter(|x| x.0 > t.end_us).map(|x| (x.0, x.1)).collect();
                             world::violation(
                                 "C12.all_failed_only_if",
-                                if !all_started { "not_all_started" } else { "attempt_still_running" },
+                                if !all_started {
+                                    "not_all_started"
+                                } else if comp.iter().any(|x| x.1 && x.0 <= t.end_us) {
+                                    "success_ignored"
+                                } else {
+                                    "attempt_still_running"
+                                },
                                 format!("call {}: AllAttemptsFailed at {}us with {}/{} attempts started; still running (done_at, will_succeed): {:?}", i, t.end_us, mine.len(), max, running),
                             );
                         } else {
